@@ -84,6 +84,11 @@ def pool_items():
               "![a b c! d e f]\n", "$[echo!]\n", "x = $(timeit!)\n", "![echo -n!]\n", "r = !(ls! )\n", "f!()\n", "g!( )\n", "with! a: \n" if False else "h!(a,)\n", "x = 1 if ![a] else $[b]\n", "@dec\ndef g():\n    $[ls]\n", "class A:\n    with! b:\n        c\n    x = 1\n", "for $i in $(seq 3).split(): print($i)\n",
               # one-line with-macros whose statement ends inside a multi-line string or bracket: the capture must stop at the statement's NEWLINE
               "with! ctx: a = \"\"\"q\nw\"\"\"\n", "with! x: f(\'\'\'\n\'\'\')\n", "with! x: y = (1,\n  2)\n", "with! x: s = \'a\\\nb\'\n", "with! x: pass\n"]
+    # characters that str.splitlines() takes for line ends but Python source does not (form feed, VT, FS, NEL, U+2028): a statement
+    # holding one must not shift anything a later statement reads by line number ...
+    items += ["x = 1\n\x0c\ny = 2\n", "s = 'a\x0cb'\n", "# c \u2028 d\n", "s = 'q\x85r\x1cs'  # \x1d\n", "$(echo a\x0bb)\n", "with! a:\n    b \u2028 c\n", "\x0c\n", "k = \"\"\"\n\x0c\n\u2029\n\"\"\"\n", "g!(a \x1e b)\n"]
+    # ... and statements that read the source by line number (macro text, `=` debug text, byte columns of non-ASCII lines, raw blocks)
+    items += ["r = f!(a + b, [c, d])\n", "t = f'{q = }'\n", "é = $HOME + 'ü'\n", "with! a:\n    b\n\n    c\n", "x = f\"\"\"{a=\n}\"\"\"\n", "v = $(echo! é  è)\n", "w = f'{é!r = :>4}' 'ß'\n"]
     return [s for s in items if s]
 
 
